@@ -403,6 +403,24 @@ func init() {
 	}
 }
 
+func init() {
+	R := func(name string, in Intrinsic) { intrinsics[name] = in }
+	// cosmossdk.io/errors wrapping captures stack traces through runtime internals; the wrapped error is modelled
+	// as an opaque non-nil error (nil stays nil)
+	wrap := func(e *Exec, st *State, fn *ssa.Function, args []Value, depth int) []Outcome {
+		if iv, ok := args[0].(Iface); ok && iv.T == nil {
+			return ret1(st, Iface{})
+		}
+		if p, ok := args[0].(Ptr); ok && p.Obj == 0 {
+			return ret1(st, Iface{})
+		}
+		return ret1(st, e.makeError(st, e.freshOpaqueStr("wrapped")))
+	}
+	for _, n := range []string{"cosmossdk.io/errors.Wrap", "cosmossdk.io/errors.Wrapf", "(*cosmossdk.io/errors.Error).Wrap", "(*cosmossdk.io/errors.Error).Wrapf", "cosmossdk.io/errors.WithType", "github.com/pkg/errors.Wrap", "github.com/pkg/errors.Wrapf", "github.com/pkg/errors.WithStack"} {
+		R(n, wrap)
+	}
+}
+
 func bigOne() *bigInt           { return new(bigInt).SetInt64(1) }
 func bigFromInt(i int64) *bigInt { return new(bigInt).SetInt64(i) }
 
